@@ -56,6 +56,9 @@ QUERIES = {
     "sort_u_desc": lambda: _Tm().sort_values("u", ascending=False),
     "si_u_alt": lambda: tables.from_parts(tables.cut(T_ALT, [4, 8]), (0, 4, 8, 11)).set_index("u"),
     "sort_a": lambda: _Tm().sort_values("a"),
+    # a column that is already ascending across partitions: the cached entry carries the direction-specific "presorted" flag
+    "sort_p": lambda: _Tm().reset_index().sort_values("index"),
+    "sort_p_desc": lambda: _Tm().reset_index().sort_values("index", ascending=False),
     "rp_200": lambda: _Tm()[["a", "u", "b"]].repartition(partition_size="150B"),
     "rp_400": lambda: _Tm()[["a", "u", "b"]].repartition(partition_size="400B"),
     "fp_2": lambda: _fp(2)[["a", "b"]],
@@ -138,7 +141,11 @@ def observe(kind, qname):
     if kind == "compute":
         r = q.compute(scheduler="sync")
         ordered = qname not in ("sort_a", "gb", "fp_3_sum")
-        return ["result", core.digest(r, ordered=ordered, labelled=qname not in ("sort_a",))]
+        out = ["result", core.digest(r, ordered=ordered, labelled=qname not in ("sort_a",))]
+        if qname.startswith(("sort_", "si_")):
+            # compute() collapses the plan to one partition first (other cache keys): also run the multi-partition plan
+            out.append(core.digest(core.run(q.optimize().expr), ordered=ordered, labelled=qname not in ("sort_a",)))
+        return out
     raise ValueError(kind)
 
 
@@ -246,7 +253,7 @@ def run_history(item):
     return {"status": "viol" if uniq else "ok", "viols": list(uniq.values()), "info": {"obs": obs, "state": skey, "cache_entries": hits}}
 
 
-FAILABLE = {"si_u", "si_u_up2", "si_u_np2", "sort_u", "sort_u_desc", "sort_a", "rp_200", "rp_400", "shared_sub", "gb"}
+FAILABLE = {"si_u", "si_u_up2", "si_u_np2", "sort_u", "sort_u_desc", "sort_p", "sort_p_desc", "sort_a", "rp_200", "rp_400", "shared_sub", "gb"}
 
 
 def evaluate(case):
@@ -288,8 +295,9 @@ def families(quick):
     """Queries that can interact through a shared cache, the observations that read it, other events."""
     obs3 = ["optimize", "compute", "divisions"]
     fam = {
-        "sort": (["si_u", "si_u_up2", "si_u_np2", "sort_u", "sort_u_desc", "si_u_alt", "sort_a"], ["optimize", "compute"] if quick else obs3,
-                 [["fail", "si_u"], ["fail", "sort_u"], ["keep", "si_u"], ["drop", "si_u"], ["flood"]]),
+        "sort": ((["si_u", "si_u_up2", "si_u_np2", "sort_p", "sort_p_desc", "si_u_alt", "sort_a"] if quick else
+                  ["si_u", "si_u_up2", "si_u_np2", "sort_u", "sort_u_desc", "sort_p", "sort_p_desc", "si_u_alt", "sort_a"]), ["optimize", "compute"] if quick else obs3,
+                 [["fail", "si_u"], ["fail", "sort_p"], ["keep", "si_u"], ["drop", "si_u"], ["flood"]]),
         "size": (["rp_200", "rp_400", "gb", "shared_sub"], ["optimize", "compute"] if quick else obs3, [["fail", "rp_200"], ["fail", "gb"], ["flood"]]),
         "frompandas": (["fp_2", "fp_3", "fp_3_sum"], ["compute", "divisions", "len"] if quick else obs3 + ["len"], [["keep", "fp_2"], ["drop", "fp_2"], ["flood"]]),
         "parquet": ((["pq_all", "pq_filter", "pqa_all", "pq_div", "pqa_div", "pqa_div_loc"] if quick else
